@@ -149,7 +149,7 @@ def run_case(case):
     fam = case['fam']
     labels = {'fam=' + fam, 'stages=%d' % len(texts)}
 
-    if any(alias_context_conflict(d) for d in case['docs']):
+    if any(alias_context_conflict(d, shared_only=True) for d in case['docs']):
         return Outcome(labels=['skip-shared-node-under-differently-flagged-parents'])
 
     def make():
